@@ -72,7 +72,7 @@ ASSUMPTIONS = [
     'so a byte copy of db + journal is the state a death at that boundary leaves (cross-checked '
     'against real os._exit kills on every boundary of H1 in the quick tier, of H1-H4 in thorough)',
 ]
-MIN_NONTRIVIAL = {'quick': 120, 'thorough': 900}
+MIN_NONTRIVIAL = {'quick': 120, 'thorough': 800}
 CHUNK = 1
 CAP_S = {'thorough': int(os.environ.get('C18_CAP_S', '1700'))}
 
